@@ -56,7 +56,7 @@ def kitchen_sink_src(date="2024-01-01T00:00:00", ns_prefix="xtce") -> str:
                  f'byte_order="leastSignificantByteFirst", default_calibrator={poly}, context_calibrators=[{C}.ContextCalibrator([{M}.Comparison("0", "FLAG", operator="<")], {spline0})]), unit="V")'),
         "MIL": f'parameter_types.FloatParameterType("MIL_T", {E}.FloatDataEncoding(32, encoding="MILSTD_1750A"))',
         "HALF": f'parameter_types.FloatParameterType("HALF_T", {E}.FloatDataEncoding(16))',
-        "STATE": f'parameter_types.EnumeratedParameterType("STATE_T", {_int(8, default_calibrator=poly)}, {{0: "OFF", 1: "ON", 255: "FAULT"}}, unit="state")',
+        "STATE": f'parameter_types.EnumeratedParameterType("STATE_T", {_int(8, default_calibrator=poly)}, {{0: "OFF", 1: "ON", 255: "FAULT", 9007199254740993: "BIG_ODD"}}, unit="state")',
         "ARMED": f'parameter_types.BooleanParameterType("ARMED_T", {_int(8, default_calibrator=f"{C}.PolynomialCalibrator([{C}.PolynomialCoefficient(-1.0, 0), {C}.PolynomialCoefficient(1.0, 1)])")}, unit="bool")',
         "NLEN": f'parameter_types.IntegerParameterType("NLEN_T", {_int(8, default_calibrator=poly)})',
         "NAME":
@@ -76,6 +76,10 @@ def kitchen_sink_src(date="2024-01-01T00:00:00", ns_prefix="xtce") -> str:
                   f'default_calibrator={C}.PolynomialCalibrator([{C}.PolynomialCoefficient(147.25, 0), {C}.PolynomialCoefficient(0.015625, 1)])), '
                   f'unit="s", epoch="TAI", offset_from="T_REL")'),
         "T_REL": f'parameter_types.RelativeTimeParameterType("T_REL_T", {E}.FloatDataEncoding(64), unit="ms", epoch="2009-10-10T12:00:00-05:00", offset_from="T_ABS")',
+        "T_PLAIN": (f'parameter_types.RelativeTimeParameterType("T_PLAIN_T", {E}.IntegerDataEncoding(16, "unsigned", '
+                    f'default_calibrator={C}.PolynomialCalibrator([{C}.PolynomialCoefficient(0.001, 1)])), unit="s")'),
+        "W12": f'parameter_types.IntegerParameterType("W12_T", {E}.IntegerDataEncoding(12, "unsigned", byte_order="leastSignificantByteFirst"))',
+        "PAD4": f'parameter_types.IntegerParameterType("PAD4_T", {_int(4)})',
     }
     for n, t in types.items():
         desc = f', short_description="short {n}", long_description="long text of {n}"' if n in ("MODE", "TEMP") else ""
@@ -88,7 +92,7 @@ def kitchen_sink_src(date="2024-01-01T00:00:00", ns_prefix="xtce") -> str:
                                      base_container_name="CCSDSPacket",
                                      restriction_criteria=[{M}.Comparison("100", "PKT_APID", operator="=="),
                                                            {M}.Comparison("1", "VERSION", operator="<", use_calibrated_value=False)]),
-        containers.SequenceContainer("TXT", [COMMON, P["NLEN"], P["NAME"], P["TAG"], P["LBL"], P["BLOB"], P["FIX"], P["BLK"], P["T_ABS"], P["T_REL"]],
+        containers.SequenceContainer("TXT", [COMMON, P["NLEN"], P["NAME"], P["TAG"], P["LBL"], P["BLOB"], P["FIX"], P["BLK"], P["T_ABS"], P["T_REL"], P["T_PLAIN"], P["W12"], P["PAD4"]],
                                      base_container_name="CCSDSPacket", abstract=False, short_description="text packet",
                                      restriction_criteria=[{M}.BooleanExpression({M}.Anded([
                                          {M}.Condition("PKT_APID", "==", right_value="200", right_use_calibrated_value=False),
